@@ -316,6 +316,12 @@ def frame_init(F, S):
 
 def check(F, run, tier):
     S = Summaries(F)
+    # refusals at the edge of an integer type's range are exact (neither the largest representable value is turned away nor
+    # the first unrepresentable one let through), wherever in the library they are made
+    from ..rules_stream import capacity_refusals_exact
+    _oc, _nc = capacity_refusals_exact(F, S, ["/src/"])
+    run.add(_oc)
+    run.floor("capacity-refusals", _nc, 33)
     run.declined = DECLINED
     run.explanation = (
         "Static analysis of the PRT serialiser pair. Decided: R-SEQ (ArtFile::Write, ArtFile::Read and spec/prt.seq.json agree "
